@@ -4,8 +4,10 @@ package codegen
 
 import (
 	gotoken "go/token"
+	"os"
 
 	"github.com/dcaiafa/lox/internal/base/errlogger"
+	"github.com/dcaiafa/lox/internal/lexergen/mode"
 	"github.com/dcaiafa/lox/zz_verif/vrt"
 )
 
@@ -422,4 +424,69 @@ func H_AliasAmbiguity() {
 	} else {
 		vrt.Reach("accepted")
 	}
+}
+
+// ---- C13: the lexer emitter under an arbitrary map order ----
+
+const vModes4 = `@lexer
+A = 'a' @push_mode(M1)
+B = 'b' @push_mode(M2)
+@mode M1 {
+C = 'c' @push_mode(M3)
+C1 = 'x' @pop_mode
+}
+@mode M2 {
+D = 'd' @pop_mode
+}
+@mode M3 {
+E = 'e' @pop_mode
+}
+
+@parser
+@start s = A
+`
+
+// vEmitLexer runs the real EmitLexer. Under symgo the template engine is
+// stubbed (jet is reflection all the way down): the closures EmitLexer hands to
+// it are fetched back and called in the order the template calls them (modes(),
+// then mode_table(m) for each); natively the real engine renders and the file is
+// read back.
+func vEmitLexer(c *context) string {
+	c.GoPackageName, c.GoPackagePath = "p", "example.com/p"
+	ok := c.EmitLexer()
+	vrt.Assert(ok, "emit-lexer-succeeds")
+	if vrt.Symbolic() {
+		modes := vrt.HostVar("modes").(func() []*mode.Mode)
+		table := vrt.HostVar("mode_table").(func(*mode.Mode) string)
+		s := ""
+		for _, m := range modes() {
+			s += m.Name + vrt.Name("#", m.Index) + "=" + table(m) + ";"
+		}
+		return s
+	}
+	data, err := os.ReadFile(c.Dir + "/" + lexerGenGo)
+	if err != nil {
+		return "unreadable"
+	}
+	return string(data)
+}
+
+// H_EmitLexerOrder (C13): what EmitLexer emits does not depend on the order in
+// which built-in maps iterate.
+func H_EmitLexerOrder() {
+	dir := vrt.TempDir()
+	defer vrt.RemoveAll(dir)
+	vrt.WriteFile(dir+"/f0.lox", []byte(vModes4))
+	fset := gotoken.NewFileSet()
+	c := &context{Fset: fset, Errs: errlogger.New(fset, &vSink{}), Dir: dir}
+	if !c.ParseLox() {
+		vrt.Assert(false, "specification-accepted")
+		return
+	}
+	a := vEmitLexer(c)
+	vrt.MapOrder(1)
+	b := vEmitLexer(c)
+	vrt.MapOrder(0)
+	vrt.Assert(a == b, "emitted-lexer-independent-of-map-order")
+	vrt.Reach("emitted")
 }
